@@ -123,14 +123,18 @@ def run(ctx):
 
 
 def is_in_right_assoc(m):
-    """the recorded deviation: root `in` whose LEFT operand is an `in` expression, real tree = right-associated regrouping"""
+    """the recorded deviation, at any depth of the tree: the real tree is exactly the expected tree with every chain
+    `(x in y) in z` (which the minimal spelling writes without parentheses) regrouped as `x in (y in z)`"""
     e, g = m.get("expected"), m.get("got")
     if not (isinstance(e, dict) and isinstance(g, dict)) or m["what"] != "tree of the min spelling":
         return False
-    def regroup(t):      # (x in y) in z  ->  x in (y in z)
-        if t.get("k") == "bin" and t.get("op") == "in" and isinstance(t.get("l"), dict) and t["l"].get("k") == "bin" and t["l"].get("op") == "in":
-            inner = {"k": "bin", "op": "in", "l": t["l"]["r"], "r": t["r"]}
-            return {"k": "bin", "op": "in", "l": t["l"]["l"], "r": regroup(inner)}
+    def regroup(t):
+        if not isinstance(t, dict):
+            return t
+        t = {k: regroup(v) for k, v in t.items()}
+        while t.get("k") == "bin" and t.get("op") == "in" and isinstance(t.get("l"), dict) and t["l"].get("k") == "bin" and t["l"].get("op") == "in":
+            inner = regroup({"k": "bin", "op": "in", "l": t["l"]["r"], "r": t["r"]})
+            t = {"k": "bin", "op": "in", "l": t["l"]["l"], "r": inner}
         return t
     return json.dumps(regroup(e), sort_keys=True) == json.dumps(g, sort_keys=True) and json.dumps(e, sort_keys=True) != json.dumps(g, sort_keys=True)
 
